@@ -1,5 +1,6 @@
 import QuillModel.Props.C06
 import QuillModel.Backend.ConcBound
+import QuillModel.Backend.ConcMono
 /-!
 # C06 / C09 — progress of `flush_log()` while other threads keep logging
 
@@ -96,6 +97,44 @@ theorem C06_flush_log_returns_concurrent (s0 : BSt) (hA : PA.Fresh s0) (hF : Sta
       omega
   exact ⟨hflag, fun a x hx hpd => ((resume_flag _ a x f hx hpd).1 hflag).2⟩
 
+/-- **Past the grace period nothing older can arrive.** For every schedule `pre ++ suffix` satisfying the grace premise:
+    once the clock (at the end of `pre`) is past `T + grace`, the number of records with timestamp `≤ T` accepted by all
+    contexts does not change any more — a thread that keeps enqueueing records with timestamps below a given one does not
+    exist past the premise. (Whatever is accepted later is committed at a later clock value: `mono_runOps`.) -/
+theorem C06_nothing_older_arrives (s0 : BSt) (h0 : Start s0) (pre suffix : List Op) (T : Nat)
+    (hp : GracePremise (runOps s0 (pre ++ suffix)))
+    (hT : T + s0.cfg.grace < (runOps s0 pre).now) :
+    accLE (runOps s0 (pre ++ suffix)) T = accLE (runOps s0 pre) T := by
+  have e : runOps s0 (pre ++ suffix) = runOps (runOps s0 pre) suffix := by simp [runOps, List.foldl_append]
+  have hc1 := (start_GI h0).cfg_runOps pre
+  have hc2 := (start_GI h0).cfg_runOps (pre ++ suffix)
+  rw [e] at hp hc2 ⊢
+  exact accLE_const (mono_runOps suffix _) (by rw [hc2, hc1]) hp T (by rw [hc1]; exact hT)
+
+/-- **`flush_log()` returns while other threads keep logging — explicit bound.** Hypotheses of C05. After any schedule `pre`
+    a Flush request `st` (flag `f`, timestamp `T`) has been accepted and the clock is past `T + grace`. Then for **every**
+    continuation `suffix` (any frontend operations of any threads, polls with any injections): if the number of productive
+    operations of `suffix` reaches `pendingLE … T` — the number of records with timestamp `≤ T` that are **pending at the end of
+    `pre`** (those ahead of the request in its own queue, the request itself, and the records of other threads with a timestamp
+    `≤ T`) — then the flag is raised and the caller's `resume` answers "done". Statements logged during `suffix` do not
+    enter the bound: they cannot have a timestamp `≤ T` (`C06_nothing_older_arrives`) and are not processed before the
+    request (`C06_flush_not_overtaken`). -/
+theorem C06_flush_log_returns_concurrent_explicit (s0 : BSt) (hA : PA.Fresh s0) (hF : StartF s0) (hg : s0.cfg.grace ≠ 0)
+    (hr : s0.cfg.refreshAfterSample = true) (pre suffix : List Op) (i : Nat) (st : Stmt) (f : Nat)
+    (hp : GracePremise (runOps s0 (pre ++ suffix)))
+    (hst : st ∈ ((runOps s0 pre).th i).accepted) (hk : st.kind = .flush f)
+    (hT : st.ts + s0.cfg.grace < (runOps s0 pre).now)
+    (hn : pendingLE (runOps s0 pre) st.ts ≤ productive (runOps s0 pre) suffix) :
+    f ∈ (runOps s0 (pre ++ suffix)).flags ∧
+    ∀ a x, (runOps s0 (pre ++ suffix)).actor a = some x → x.pend = .flag f →
+      (resume (runOps s0 (pre ++ suffix)) a).2 = "done" := by
+  have e : runOps s0 (pre ++ suffix) = runOps (runOps s0 pre) suffix := by simp [runOps, List.foldl_append]
+  have hst' : st ∈ ((runOps s0 (pre ++ suffix)).th i).accepted := by
+    rw [e]; exact (mono_runOps suffix _).mem_acc hst
+  have h1 := C06_nothing_older_arrives s0 hF.start pre suffix st.ts hp hT
+  have h2 := accLE_le (hA.inv.run pre) ((start_FI hF).runOps pre) st.ts
+  exact C06_flush_log_returns_concurrent s0 hA hF hg hr pre suffix i st f hp hst' hk (by rw [h1]; omega)
+
 /-! ### witnesses -/
 
 /-- soft limit 2 (three buffered events put the backend in batch mode), grace 10 -/
@@ -158,7 +197,8 @@ example :
     let s := runOps (c05Init true) c06BusyPre
     let s' := runOps (c05Init true) (c06BusyPre ++ c06Busy)
     GracePremise s' ∧ (s'.th 0).accepted.map (fun st => (st.kind matches .flush 0, st.ts)) = [(false, 1000), (false, 1000), (true, 1000)] ∧
-    accLE s' 1000 = 3 ∧ s.popLog.length = 0 ∧ productive s c06Busy = 3 ∧
+    accLE s' 1000 = 3 ∧ s.popLog.length = 0 ∧ productive s c06Busy = 3 ∧ pendingLE s 1000 = 3 ∧
+    1000 + (c05Init true).cfg.grace < s.now ∧
     s'.flags = [0] ∧ (applyOp s' (.front (.resume 1))).2 = "done" ∧
     s'.ths.map (fun t => (t.accepted.length, t.popped.length)) = [(3, 3), (5, 0)] := by
   decide +kernel
